@@ -160,3 +160,23 @@ func ScriptProbe(dsID int, delta int, neg bool) []byte {
  (data (i32.const 1024) "test"))
 `, dsID, vid, vid))
 }
+
+// ScriptReturnEmpty asks the given data sources and, in execute, sets a ZERO-LENGTH return value (which is a
+// successful execution with an empty result, unlike not calling set_return_data at all).
+func ScriptReturnEmpty(dsIDs []int) []byte {
+	var sb strings.Builder
+	sb.WriteString(`(module
+	(type $t0 (func))
+	(type $t1 (func (param i64 i64 i64 i64)))
+	(type $t2 (func (param i64 i64)))
+	(import "env" "ask_external_data" (func $ask_external_data (type $t1)))
+	(import "env" "set_return_data" (func $set_return_data (type $t2)))
+	(func $prepare (export "prepare") (type $t0)
+`)
+	for i, d := range dsIDs {
+		fmt.Fprintf(&sb, "  i64.const %d\n  i64.const %d\n  i64.const 1024\n  i64.const 4\n  call $ask_external_data\n", i+1, d)
+	}
+	sb.WriteString(")\n\t(func $execute (export \"execute\") (type $t0)\n  i64.const 2048\n  i64.const 0\n  call $set_return_data\n)\n")
+	sb.WriteString("\t(memory $memory (export \"memory\") 17)\n\t(data (i32.const 1024) \"test\"))\n")
+	return Wat(sb.String())
+}
